@@ -75,6 +75,35 @@ pub(crate) fn build_shared(len: u32, kernel_thread: bool, single_issuer: bool) -
     }
 }
 
+/// Like `build_shared`, but constructed IN PLACE inside its `Arc` allocation,
+/// field by field. `Arc::new(shared)` moves the struct with a byte-wise copy,
+/// after which CBMC no longer sees the individual fields of the heap object
+/// and cannot fold constants read back from it (e.g. "the blocked-futures list
+/// is empty", "the mutex is unlocked").
+pub(crate) fn build_shared_arc(len: u32, kernel_thread: bool, single_issuer: bool) -> Arc<Shared> {
+    let mem = sq_mem();
+    let mut arc: Arc<mem::MaybeUninit<Shared>> = Arc::new_uninit();
+    let p: *mut Shared = Arc::get_mut(&mut arc).unwrap().as_mut_ptr();
+    unsafe {
+        ptr::addr_of_mut!((*p).submission_ring).write(NonNull::from(&mut *mem).cast());
+        ptr::addr_of_mut!((*p).submission_ring_len).write(16);
+        ptr::addr_of_mut!((*p).kernel_flags).write(NonNull::from(&mem.flags));
+        ptr::addr_of_mut!((*p).submissions_head).write(NonNull::from(&mem.head));
+        ptr::addr_of_mut!((*p).submissions_tail).write(NonNull::from(&mem.tail));
+        ptr::addr_of_mut!((*p).submissions).write(NonNull::from(&mut mem.sqes[0]).cast());
+        ptr::addr_of_mut!((*p).submissions_lock).write(Mutex::new(()));
+        ptr::addr_of_mut!((*p).submissions_len).write(len);
+        ptr::addr_of_mut!((*p).kernel_thread).write(kernel_thread);
+        ptr::addr_of_mut!((*p).single_issuer).write(single_issuer);
+        ptr::addr_of_mut!((*p).polling).write(PollingState::new());
+        // capacity reserved so that pushing a waiter does not go through Vec's
+        // grow/realloc path (symbolic-size realloc: out of memory in CBMC)
+        ptr::addr_of_mut!((*p).blocked_futures).write(Mutex::new(Vec::with_capacity(4)));
+        ptr::addr_of_mut!((*p).rfd).write(OwnedFd::from_raw_fd(RING_FD));
+        arc.assume_init()
+    }
+}
+
 pub(crate) fn sq_set(head: u32, tail: u32) {
     let mem = sq_mem();
     mem.head.store(head, Ordering::Relaxed);
@@ -259,4 +288,31 @@ pub(crate) fn waker_id(w: &task::Waker) -> Option<usize> {
     } else {
         None
     }
+}
+
+// ---------------------------------------------------------------------------
+// Kani stubs for `std::task::Waker`: direct calls instead of the vtable's
+// function pointers. Every waker in a harness is a counting waker from
+// `waker()`, so the behaviour is identical; what goes away is CBMC's fan-out
+// over every function whose signature matches `unsafe fn(*const ())` -- which
+// includes a10's `drop_state` (it drops a Waker itself: unbounded recursion up
+// to the unwind bound).
+// ---------------------------------------------------------------------------
+
+pub(crate) fn waker_drop_direct(w: &mut task::Waker) {
+    unsafe { w_drop(w.data()) }
+}
+
+pub(crate) fn waker_clone_direct(w: &task::Waker) -> task::Waker {
+    unsafe { task::Waker::from_raw(w_clone(w.data())) }
+}
+
+pub(crate) fn waker_wake_direct(w: task::Waker) {
+    let data = w.data();
+    mem::forget(w);
+    unsafe { w_wake(data) }
+}
+
+pub(crate) fn waker_wake_by_ref_direct(w: &task::Waker) {
+    unsafe { w_wake_by_ref(w.data()) }
 }
